@@ -243,7 +243,7 @@ class BaseClient:
         # - self.handlers["*"][event]
         # - self.handlers["*"]["*"]
         handler = None
-        if namespace in self.handlers:
+        if namespace != '*' and namespace in self.handlers:
             if event != '*' and event in self.handlers[namespace]:
                 handler = self.handlers[namespace][event]
             elif event not in self.reserved_events and \
@@ -267,7 +267,7 @@ class BaseClient:
         # - self.namespace_handlers[namespace]
         # - self.namespace_handlers["*"]
         handler = None
-        if namespace in self.namespace_handlers:
+        if namespace != '*' and namespace in self.namespace_handlers:
             handler = self.namespace_handlers[namespace]
         elif '*' in self.namespace_handlers:
             handler = self.namespace_handlers['*']
